@@ -37,6 +37,8 @@ type State struct {
 	trace    []*Event
 	callBase map[string]smt.Term // symbolic number of earlier calls (after loop cuts), per key
 	unknownCalls bool              // some loop cut havocked the trace for all keys
+	lazyBase     bool              // after a path join: the number of earlier calls is an unknown per key, created on first use
+	tiAllocs     []tiAlloc         // objects of a type with a declared invariant allocated on this path
 	measure  map[*ssa.BasicBlock]smt.Term
 	ghostLocals map[string]Value
 	privRefs map[string]bool // refs allocated on this path and not yet escaped
@@ -58,6 +60,8 @@ func (st *State) clone() *State {
 		clock:  st.clock,
 		trace:  append([]*Event(nil), st.trace...),
 		unknownCalls: st.unknownCalls,
+		lazyBase: st.lazyBase,
+		tiAllocs: append([]tiAlloc(nil), st.tiAllocs...),
 	}
 	for k, v := range st.locals {
 		n.locals[k] = v
@@ -300,6 +304,9 @@ func (e *Engine) named(st *State, hint string, v Value) Value {
 
 // assumeValid adds the type invariants of a value (slice shape, string length, allocation stamps).
 func (e *Engine) assumeValid(st *State, v Value) {
+	if len(e.w.TypeInvs) > 0 {
+		e.assumeTypeInv(st, v)
+	}
 	if v.P != nil || v.Elems != nil {
 		for _, el := range v.Elems {
 			e.assumeValid(st, el)
